@@ -5,11 +5,6 @@ from fractions import Fraction
 from harness import core, gens
 from harness.core import q, qlist, cbool, Case, guarded, ImplError, frac
 
-# The two observations below are genuine float artefacts / defects of the unchanged tree (see the C14 report). They are
-# measured and recorded in the evidence on every run; set to True to make them fail the run.
-STRICT_FLOAT_COUNT = False      # output length differs from exact arithmetic because fl(fl(1/m) * n) < n/m  (m = 49, 98, ...)
-STRICT_WARPED_RESAMPLE = False  # resample_to_approx_dt when new_npts != factor * npts: output is time-warped
-
 RULE = ('cases = (entry point, record, dt, target_dt, even); entry points interp_array_to_approx_dt, interp_to_approx_dt (AccSignal), resample_to_approx_dt; '
         'pairs (dt, target): equal, refinement k in 2..40, decimation m in 2..60, commensurate decimal pairs (0.01/0.005, 0.01/0.03, 0.02/0.005, ...), '
         'and pairs built to put dt/target or target/dt within 0..3 ulps of an integer on either side; even in {True, False}; '
@@ -20,7 +15,7 @@ TRUSTED = [
     'Coq 8.16.1 kernel + vm_compute; Flocq 4.1.0 binary64 (Bits.b64_div / b64_mult, binary_normalize) as the executable float kernel',
     'hand-written model coq/model/M_timestep.v; tie = correspondence of this run (model/K_C14.v): returned step and length bit-exact against the binary64 chain, values against the Q-model of np.interp',
     'np.interp modelled as clamped linear interpolation on the integer grid (slope*(x-x0)+y0); np.arange(x) has ceil(x) entries',
-    'scipy.signal.resample is an oracle: band-limited exactness is not a theorem; it is measured on implementation outputs by interval-arithmetic enclosures (Coq Interval) on every run',
+    'scipy.signal.resample is an oracle: band-limited exactness is not a theorem; it is decided on implementation outputs by interval-arithmetic enclosures (Coq Interval) on every run, strict whenever factor*npts is an integer (also for even-trimmed outputs)',
     'theorems are in exact real arithmetic; the binary64 step bound is checked with slack 2^-50 on implementation outputs (the strict bound fails by 1-2 ulp in binary64, e.g. dt=1, target=49)',
     'Python harness',
 ]
@@ -47,22 +42,6 @@ def pick_len(rng, lo, hi):
     if r < 0.85:
         return rng.randint(lo, min(hi, lo + 80))
     return rng.randint(lo, hi)
-
-
-def float_chain_npts(fn, n, dt, tg, even):
-    """the sample count the code's float chain produces (used only to classify the known zero-length artefact)"""
-    f = dt / tg
-    if f == 1:
-        pass
-    elif f > 1:
-        f = int(np.ceil(f))
-    else:
-        f = 1 / np.floor(1 / f)
-    if fn == 2:
-        c = int(f * n)
-        return 2 * int(c / 2) if even else c
-    x = f * n
-    return 2 * int(x / 2) if even else int(math.ceil(x))
 
 
 def is_pow2(k):
@@ -129,15 +108,6 @@ def run(rep, rng, tier):
         else:
             r = guarded(lambda: (lambda s: (s.values, s.dt))(resample_to_approx_dt(eqsig.AccSignal(v.copy(), dt), target_dt=tg, even=even)))
         if isinstance(r, ImplError):
-            if fn == 2 and float_chain_npts(fn, n, dt, tg, even) == 0 and n * dt >= 2 * max(dt, tg):
-                # known float artefact (see STRICT_FLOAT_COUNT): int(fl(fl(1/m)*n)) = 1 instead of 2, trimmed to 0, scipy divides by zero
-                stats['resample_zero_length_crash'] = stats.get('resample_zero_length_crash', 0) + 1
-                rep.extra.setdefault('resample_zero_length_crash_examples', [])
-                if len(rep.extra['resample_zero_length_crash_examples']) < 3:
-                    rep.extra['resample_zero_length_crash_examples'].append({'npts': n, 'dt': dt, 'target_dt': tg, 'even': even, 'error': str(r)})
-                if STRICT_FLOAT_COUNT:
-                    rep.violation('float-length-artefact', {'function': site, 'args': dict(args, values='zeros(%d)' % n if not np.any(v) else list(v)), 'impl_error': str(r)})
-                return None
             stats['impl_errors'] += 1
             rep.violation(site, {'function': site, 'args': args, 'impl_error': str(r)})
             return None
@@ -213,17 +183,19 @@ def run(rep, rng, tier):
         else:
             v = zeros.setdefault(n, np.zeros(n))
         emit(rng.choice([0, 0, 1, 2]), v, dt, tg, rng.random() < 0.5, RTOL, full=full)
-    # ---- decimation by every m up to 130 (quick) / 520 (thorough) on records of j*m samples: fl(fl(1/m) * j*m) against j
+    # ---- decimation by every m up to 130 (quick) / 520 (thorough): target = m*dt exactly (the chain may settle on m or m-1) and
+    #      target = (m+1/2)*dt (the chain settles on m); records of j*m samples (count must be j: fl(n/m) against fl(1/m)*n and
+    #      against a recomputed divisor) and, for the Fourier variant, (m-1)*j samples (int(n/m) = j-1)
     for m in range(1, 131 if tier == 'quick' else 521):
         dt = rng.choice([1.0, 0.01, 0.005, 0.02, 0.25])
-        tg = dt * m
-        for j in (2, 3, 4, rng.randint(5, 12)):
-            n = m * j
-            if n > 5000:
+        for tg, j, even, fn in ((dt * m, 2, True, rng.choice([0, 1, 2])), (dt * m, rng.randint(3, 12), rng.random() < 0.5, rng.choice([0, 1, 2])),
+                                (dt * (m + 0.5), 3, False, rng.choice([0, 1])), (dt * (m + 0.5), rng.randint(4, 9), rng.random() < 0.5, rng.choice([0, 1, 2])),
+                                (dt * (m + 0.5), -rng.randint(4, 9), rng.random() < 0.5, 2)):
+            n = m * j if j > 0 else max(m - 1, 1) * (-j)
+            if n > 5000 or n < min_len(dt, tg):
                 continue
-            emit(rng.choice([0, 1, 2]), zeros.setdefault(n, np.zeros(n)), dt, tg, j % 2 == 0 or rng.random() < 0.5, RTOL, full=False)
+            emit(fn, zeros.setdefault(n, np.zeros(n)), dt, tg, even, RTOL, full=False)
     rep.extra['float_new_dt_exceeds_target_by_rounding'] = stats['float_exceeds_target_by_ulps']
-    rep.extra['resample_zero_length_crash'] = stats.get('resample_zero_length_crash', 0)
     rep.correspond('model.K_C14', 'check_case', cases, describe='model_out %s')
     rep.correspond('model.K_C14', 'check_kernel', light, describe='model_kout %s', max_cases=2000)
     # ---- how often does exact arithmetic (the theorems' model) agree with the float chain on branch / integer / length?
@@ -233,19 +205,21 @@ def run(rep, rng, tier):
 
 
 def measure_exact_agreement(rep, cases):
-    """not a pass/fail criterion unless STRICT_FLOAT_COUNT: counts cases where the float chain picks another integer than exact
-    arithmetic on the same two floats (the near-integer region), and cases where - for the factor the float chain chose - the
-    output length differs from exact arithmetic (fl(fl(1/m)*n) < n/m)."""
-    for checker, key in (('exact_agrees', 'float_vs_exact_factor_or_length_differs'), ('exact_len_agrees', 'float_vs_exact_length_differs_same_factor')):
-        failing, errors = core.run_cases(rep.pid + 'x', 'model.K_C14', checker, cases, max_cases=3000)
-        for e in errors:
-            rep.unchecked('correspondence:model.K_C14.%s' % checker, e)
-        rep.extra[key] = len(failing)
-        if checker == 'exact_len_agrees':
-            rep.extra['float_length_artefacts'] = [dict(cases[i].replay['args'], function=cases[i].site, impl_len=cases[i].replay['impl']['len']) for i in failing[:5]]
-            if STRICT_FLOAT_COUNT:
-                for i in failing[:1]:
-                    rep.violation('float-length-artefact', cases[i].replay)
+    """(a) strict: for the factor the float chain chose, the output length must be what exact arithmetic gives for that factor
+    (site float-length-artefact; the repaired code divides by the stored integer m, so fl(n/m) decides like n/m);
+    (b) measured only: how often the float chain picks another integer than exact arithmetic on the same two floats (the
+    near-integer region the property names)."""
+    failing, errors = core.run_cases(rep.pid + 'x', 'model.K_C14', 'exact_len_agrees', cases, max_cases=3000)
+    for e in errors:
+        rep.unchecked('correspondence:model.K_C14.exact_len_agrees', e)
+    rep.extra['float_vs_exact_length_differs_same_factor'] = len(failing)
+    for i in failing[:1]:
+        rep.violation('float-length-artefact', dict(cases[i].replay, expected='output length = exact-arithmetic length for the factor used',
+                                                    n_failing=len(failing)))
+    failing, errors = core.run_cases(rep.pid + 'x', 'model.K_C14', 'exact_agrees', cases, max_cases=3000)
+    for e in errors:
+        rep.unchecked('correspondence:model.K_C14.exact_agrees', e)
+    rep.extra['float_vs_exact_factor_differs_near_integer(measured)'] = len(failing)
 
 
 def rq(x):
@@ -267,8 +241,9 @@ def bandlimited_check(rep, rng, tier):
     """resample_to_approx_dt on x[i] = g(i*dt), g a trigonometric polynomial with period npts*dt and all frequencies strictly below
     both Nyquist frequencies: every returned sample must equal g(i'*new_dt). Each comparison is a real-number enclosure proved by the
     interval tactic inside Coq (|g(i' new_dt) - returned| <= 1e-9, g evaluated on exact rationals; also |g(i dt) - x[i]| <= 1e-12 for
-    the shipped input). Cases where the implementation's sample count differs from factor*npts (even-trimming of an odd count, or
-    m not dividing npts) are 'warped': measured and recorded, and only failing when STRICT_WARPED_RESAMPLE."""
+    the shipped input). Strict whenever factor*npts is an integer (incl. even-trimmed outputs: the code resamples to factor*npts
+    and cuts afterwards); the returned length must then be factor*npts (2*int(./2) when even). When m does not divide npts no
+    periodic resampling onto the grid exists: those cases are measured and recorded only."""
     import eqsig
     from eqsig.fns.time_step import resample_to_approx_dt
     ncases = 16 if tier == 'quick' else 120
@@ -313,7 +288,13 @@ def bandlimited_check(rep, rng, tier):
         ratio = dt / nd
         kk, mm = (int(round(ratio)), 1) if ratio >= 1 else (1, int(round(1 / ratio)))
         Dimpl = Fraction(n * kk, mm)      # factor * npts for the factor the implementation used
-        warped = Fraction(len(y)) != Dimpl
+        incomm = Dimpl.denominator != 1
+        if not incomm:
+            want = 2 * (int(Dimpl) // 2) if even else int(Dimpl)
+            if len(y) != want:
+                rep.violation(site, {'function': site, 'args': args, 'impl': {'new_dt': nd, 'len': len(y)}, 'expected': 'length %d = factor*npts%s' % (want, ' cut to even' if even else '')})
+                continue
+        warped = incomm
         ci = len(metas)
         metas.append({'site': site, 'args': args, 'impl': {'new_dt': nd, 'len': len(y), 'values': list(y)}, 'warped': warped, 'bad': []})
         idx_out = sorted(set([0, len(y) - 1] + [rng.randrange(len(y)) for _ in range(5)])) if len(y) else []
@@ -361,27 +342,25 @@ def bandlimited_check(rep, rng, tier):
     n_ok_cases = n_warp = n_warp_bad = 0
     for mt in metas:
         rep.cases.append(Case('(* %d enclosure goals *)' % sum(1 for g in goals if metas[g[2]] is mt), {'function': mt['site'], 'args': mt['args'], 'impl': mt['impl']}, mt['site'],
-                              nontrivial=True, klass=mt['site'] + ('/warped' if mt['warped'] else '/exact-count')))
+                              nontrivial=True, klass=mt['site'] + ('/incommensurate(measured)' if mt['warped'] else '/factor*npts integer')))
         if mt['warped']:
             n_warp += 1
             if mt['bad']:
                 n_warp_bad += 1
-                rep.extra.setdefault('warped_resample_examples', [])
-                if len(rep.extra['warped_resample_examples']) < 3:
+                rep.extra.setdefault('incommensurate_resample_examples', [])
+                if len(rep.extra['incommensurate_resample_examples']) < 3:
                     a = mt['args']
-                    rep.extra['warped_resample_examples'].append({'npts': a['npts'], 'dt': a['dt'], 'target_dt': a['target_dt'], 'even': a['even'], 'signal': a['signal'],
+                    rep.extra['incommensurate_resample_examples'].append({'npts': a['npts'], 'dt': a['dt'], 'target_dt': a['target_dt'], 'even': a['even'], 'signal': a['signal'],
                                                                   'impl_len': mt['impl']['len'], 'impl_new_dt': mt['impl']['new_dt'], 'failing_samples': mt['bad'][:4]})
-                if STRICT_WARPED_RESAMPLE:
-                    rep.violation('resample-time-warp', {'function': mt['site'], 'args': mt['args'], 'impl': mt['impl'], 'failing_enclosures': mt['bad']})
         elif mt['bad']:
             rep.violation(mt['site'], {'function': mt['site'], 'args': mt['args'], 'impl': mt['impl'], 'failing_enclosures(kind,index)': mt['bad'],
                                        'expected': 'returned[i] = g(i*new_dt) within 1e-9, g = c0 + sum a cos(2 pi j t/(npts dt)) + b sin(...)'})
         else:
             n_ok_cases += 1
-    rep.extra['bandlimited'] = {'cases_exact_count': len(metas) - n_warp, 'cases_exact_count_all_enclosures_proved': n_ok_cases, 'enclosure_goals': len(goals),
-                                'enclosures_proved': len(ok), 'warped_cases': n_warp, 'warped_cases_not_reproducing': n_warp_bad}
+    rep.extra['bandlimited'] = {'cases_factor_npts_integer': len(metas) - n_warp, 'of_which_all_enclosures_proved': n_ok_cases, 'enclosure_goals': len(goals),
+                                'enclosures_proved': len(ok), 'incommensurate_cases(measured)': n_warp, 'incommensurate_not_reproducing': n_warp_bad}
     rep.obligations += len(goals)
-    rep.discharged += len(ok) + (0 if STRICT_WARPED_RESAMPLE else sum(1 for g in goals if g[0] in bad and metas[g[2]]['warped']))
+    rep.discharged += len(ok) + sum(1 for g in goals if g[0] in bad and metas[g[2]]['warped'])
 
 
 def finish(rep):
